@@ -235,6 +235,77 @@ class Executor:
     def _mon_fingerprints(self):
         return [(label, id(d), fingerprint(d)) for label, d in self._mon_dicts()]
 
+    def chain_steps(self, r):
+        """Completed steps that extend the trajectory, judged from the history alone:
+        a step is on the trajectory when it starts from the current trajectory state
+        and has the full CFL length of that state (duplicates - a snapshot exactly on
+        the step end - count once, the last one)."""
+        from .oracles import expected_tick
+        key = lambda d, t: (d, float(t).hex())
+        oks = [x for x in r.trace.steps if x.status == "ok"]
+        cur = key(r.f_before[0], r.f_before[1])
+        chain = []
+        for n, x in enumerate(oks):
+            if key(x.dig_in, x.t_in) != cur:
+                continue
+            et = expected_tick(self, r, x)
+            if not (bool(np.all(np.isfinite(et))) and float(np.min(et)) > 0):
+                raise ValueError("inadmissible time step")
+            if r.dtlocal:
+                full_len = x.dt_is_array and bool(np.array_equal(x.dt, et))
+            else:
+                full_len = (not x.dt_is_array) and x.dt == float(np.min(et))
+            if not full_len:
+                continue
+            out = key(x.dig_out, x.t_out)
+            dup = any(key(y.dig_in, y.t_in) == cur and key(y.dig_out, y.t_out) == out and
+                      y.dt_is_array == x.dt_is_array for y in oks[n + 1:])
+            if dup:
+                continue
+            chain.append(x)
+            cur = out
+        return chain
+
+    def _reclassify(self, r):
+        """Full/side classification normally comes from the identity of `solver.Qn`.
+        When that disagrees with the public iteration counter (the solver keeps its
+        current state elsewhere), use the history-based chain if *it* agrees."""
+        tr = r.trace
+        tr.classified_by = "identity"
+        full = tr.full_steps()
+        ok_chain = True
+        prev = (r.f_before[0], float(r.f_before[1]).hex())
+        for x in full:
+            if (x.dig_in, float(x.t_in).hex()) != prev:
+                ok_chain = False
+                break
+            prev = (x.dig_out, float(x.t_out).hex())
+        if len(full) == r.nit and ok_chain:
+            return
+        try:
+            chain = self.chain_steps(r)
+        except ValueError:
+            # NaN / non-positive time steps (unphysical state): the history cannot tell
+            # full from side steps; with no usable identity either, the call is a discard
+            tr.classified_by = "unknown"
+            return
+        except Exception:  # noqa
+            return
+        if r.outcome == "returned":
+            if len(chain) != r.nit:
+                return
+        else:
+            # interrupted call: the step completed last may not have been counted yet
+            if not (len(chain) - 1 <= r.nit <= len(chain)):
+                return
+            chain = chain[:r.nit]
+        ids = {id(x) for x in chain}
+        for x in tr.steps:
+            if x.status == "ok":
+                x.kind = "full" if id(x) in ids else "side"
+        tr.classified_by = "history"
+        self.rec.ev("reclassified", r.i, tuple(x.idx for x in chain))
+
     def oracle_disc(self):
         """Fresh, unrecorded discretisation used by the oracles for pure evaluations."""
         if self._odisc is None:
@@ -627,6 +698,7 @@ class Executor:
         r.held_after = {k: field_obs(v) for k, v in self.held.items()}
         r.nit = int(solver.nit())
         r.totnit = int(solver.totnit())
+        self._reclassify(r)
         qn = getattr(solver, "Qn", None)
         r.qn = field_obs(qn) if qn is not None else None
         r.args_mutated = (list(np.asarray(ts_arg, dtype=float)) != list(ts)) or \
